@@ -93,6 +93,7 @@ Proof. destruct b; reflexivity. Qed.
 Ltac nosep :=
   repeat first
     [ apply nosep_nil
+    | assumption
     | (eapply cls_nosep; [eassumption|reflexivity])
     | (eapply cls_nosep; [apply decN_dig|reflexivity])
     | (eapply cls_nosep; [apply decZ_num|reflexivity])
@@ -154,6 +155,41 @@ Proof. intro E. pose proof (fl_has_dot h) as I. rewrite E in I. destruct I as [I
 Lemma pybool_inj a b : pybool a = pybool b -> a = b.
 Proof. destruct a, b; auto; discriminate. Qed.
 
+(* ---------------- the order value: a float or a tuple of two floats ---------------- *)
+Lemma OS_form o t : OS o t = match t with None => fl o | Some b => 40%N :: fl o ++ 44%N :: 32%N :: fl b ++ [41%N] end.
+Proof.
+  destruct t as [b|]; [|reflexivity]. unfold OS, sep2.
+  change (lit "(") with [40%N]. change (lit ", ") with [44%N; 32%N]. change (lit ")") with [41%N].
+  cbn [app]. rewrite <- ?app_assoc. reflexivity.
+Qed.
+Lemma fl_head_num h c r : fl h = c :: r -> isnum c = true.
+Proof. intros E. pose proof (fl_num h) as H. rewrite E in H. simpl in H. apply andb_prop in H. tauto. Qed.
+Lemma fl_not_paren h r : fl h <> 40%N :: r.
+Proof. intros E. apply fl_head_num in E. discriminate. Qed.
+(* the order value followed by a comma *)
+Lemma OS_comma_inj o t o' t' r r' : OS o t ++ 44%N :: r = OS o' t' ++ 44%N :: r' -> o = o' /\ t = t' /\ r = r'.
+Proof.
+  rewrite !OS_form. destruct t as [b|], t' as [b'|]; intros E.
+  - cbn [app] in E. inversion E as [E1]. clear E. rewrite <- !app_assoc in E1. cbn [app] in E1.
+    apply app_sep_inj in E1; [|nosep|nosep]. destruct E1 as [E1 E2]. apply fl_inj in E1.
+    inversion E2 as [E3]. clear E2. rewrite <- !app_assoc in E3. cbn [app] in E3.
+    apply app_sep_inj in E3; [|nosep|nosep]. destruct E3 as [E3 E4]. apply fl_inj in E3. inversion E4. subst. auto.
+  - exfalso. cbn [app] in E. destruct (fl o') as [|c r0] eqn:Ef; [apply (fl_not_nil _ Ef)|].
+    cbn [app] in E. inversion E; subst. apply fl_head_num in Ef. discriminate.
+  - exfalso. cbn [app] in E. destruct (fl o) as [|c r0] eqn:Ef; [apply (fl_not_nil _ Ef)|].
+    cbn [app] in E. inversion E; subst. apply fl_head_num in Ef. discriminate.
+  - apply app_sep_inj in E; [|nosep|nosep]. destruct E as [E1 E2]. apply fl_inj in E1. subst. auto.
+Qed.
+Lemma OS_inj o t o' t' : OS o t = OS o' t' -> o = o' /\ t = t'.
+Proof.
+  intros E. assert (E' : OS o t ++ 44%N :: [] = OS o' t' ++ 44%N :: []) by (rewrite E; reflexivity).
+  apply OS_comma_inj in E'. tauto.
+Qed.
+Lemma OS_nosep o t sep : sep = 58%N \/ sep = 59%N \/ sep = 124%N -> nosep sep (OS o t).
+Proof. intros H. rewrite OS_form. destruct t; destruct H as [->|[->| ->]]; nosep. Qed.
+Lemma OS_not_nil o t : OS o t <> [].
+Proof. rewrite OS_form. destruct t; [discriminate|apply fl_not_nil]. Qed.
+
 (* ---------------- serialisation items ---------------- *)
 Lemma NI_form n e c a h : NI (n, (e, c, a, h)) =
   decN n ++ 58%N :: 40%N :: 39%N :: e ++ 39%N :: 44%N :: 32%N :: decZ c ++ 44%N :: 32%N :: pybool a ++ 44%N :: 32%N :: decZ h ++ [41%N].
@@ -175,9 +211,9 @@ Proof.
   apply app_inj_tail in E5. destruct E5 as [E5 _]. apply decZ_inj in E5. subst. reflexivity.
 Qed.
 
-Lemma EI_form u v o s : EI (u, v, (o, s)) =
+Lemma EI_form u v o t s : EI (u, v, (o, t, s)) =
   40%N :: decN u ++ 44%N :: 32%N :: decN v ++ 41%N :: 58%N :: 40%N :: 40%N :: decN u ++ 44%N :: 32%N :: decN v ++ 41%N :: 44%N :: 32%N ::
-  fl o ++ 44%N :: 32%N :: (match s with Some s => fl s | None => [48%N] end) ++ [41%N].
+  OS o t ++ 44%N :: 32%N :: (match s with Some s => fl s | None => [48%N] end) ++ [41%N].
 Proof.
   unfold EI, sep2. cbv zeta.
   change (lit ":") with [58%N]. change (lit "(") with [40%N]. change (lit ", ") with [44%N; 32%N]. change (lit ")") with [41%N].
@@ -187,14 +223,14 @@ Qed.
 
 Lemma EI_inj c1 c2 : EI c1 = EI c2 -> c1 = c2.
 Proof.
-  destruct c1 as [[u v] [o s]], c2 as [[u' v'] [o' s']]. intros E. rewrite !EI_form in E.
+  destruct c1 as [[u v] [[o t] s]], c2 as [[u' v'] [[o' t'] s']]. intros E. rewrite !EI_form in E.
   inversion E as [E1]. clear E.
   apply app_sep_inj in E1; [|nosep|nosep]. destruct E1 as [E1 E]. apply decN_inj in E1. inversion E as [E2]. clear E.
   apply app_sep_inj in E2; [|nosep|nosep]. destruct E2 as [E2 E]. apply decN_inj in E2. subst u' v'.
   inversion E as [E3]. clear E.
   apply app_inv_head in E3. inversion E3 as [E4]. clear E3.
   apply app_inv_head in E4. inversion E4 as [E5]. clear E4.
-  apply app_sep_inj in E5; [|nosep|nosep]. destruct E5 as [E5 E]. apply fl_inj in E5. subst o'.
+  apply OS_comma_inj in E5. destruct E5 as (-> & -> & E).
   inversion E as [E6]. clear E. apply app_inj_tail in E6. destruct E6 as [E6 _].
   destruct s as [s|], s' as [s'|].
   - apply fl_inj in E6. subst. reflexivity.
@@ -214,11 +250,14 @@ Proof.
   destruct Hs; subst; nosep.
 Qed.
 Lemma EI_nosep c : nosep 59%N (EI c).
-Proof. destruct c as [[u v] [o s]]. rewrite EI_form. destruct s; nosep. Qed.
+Proof.
+  destruct c as [[u v] [[o t] s]]. rewrite EI_form. pose proof (OS_nosep o t 59%N (or_intror (or_introl eq_refl))) as H.
+  destruct s; nosep.
+Qed.
 Lemma NI_not_nil c : NI c <> [].
 Proof. destruct c as [n [[[e c] a] h]]. rewrite NI_form. intro E. apply (f_equal (@length N)) in E. rewrite app_length in E. simpl in E. lia. Qed.
 Lemma EI_not_nil c : EI c <> [].
-Proof. destruct c as [[u v] [o s]]. rewrite EI_form. discriminate. Qed.
+Proof. destruct c as [[u v] [[o t] s]]. rewrite EI_form. discriminate. Qed.
 
 Lemma map_inj_in {A B} (f : A -> B) (P : A -> Prop) : (forall x y, P x -> P y -> f x = f y -> x = y) ->
   forall l l', Forall P l -> Forall P l' -> map f l = map f l' -> l = l'.
@@ -275,15 +314,17 @@ Qed.
 Definition NS (c : list N * Z * bool * Z) : str := let '(e, c0, a, h) := c in join 58%N [e; pybool a; decZ c0; decZ h].
 Lemma node_str_cov g v : node_str g v = NS (ncov (attr_of g v)).
 Proof. unfold node_str, NS, ncov. destruct (attr_of g v). reflexivity. Qed.
-Definition EB (o : option (Z * option Z)) : str :=
+Definition EB (o : option ecv) : str :=
   match o with
-  | Some (o, s) => 49%N :: 58%N :: fl o ++ 58%N :: (match s with Some s => fl s | None => [] end)
+  | Some (o, t, s) => 49%N :: 58%N :: OS o t ++ 58%N :: (match s with Some s => fl s | None => [] end)
   | None => [48%N; 58%N; 58%N]
   end.
+Lemma ord_str_cov a : ord_str a = OS (eo a) (et a).
+Proof. reflexivity. Qed.
 Lemma edge_bit_cov g ab : edge_bit g ab = EB (option_map ecov (adj g (fst ab) (snd ab))).
 Proof.
-  unfold edge_bit, EB. destruct (adj g (fst ab) (snd ab)) as [[o s]|]; [|reflexivity].
-  cbn [option_map ecov eo es]. change (lit "1:") with [49%N; 58%N]. change (lit ":") with [58%N].
+  unfold edge_bit, EB. destruct (adj g (fst ab) (snd ab)) as [[o s t]|]; [|reflexivity].
+  cbn [option_map ecov eo es et]. rewrite ord_str_cov. cbn [eo et]. change (lit "1:") with [49%N; 58%N]. change (lit ":") with [58%N].
   cbn [app]. rewrite <- ?app_assoc. reflexivity.
 Qed.
 
@@ -302,18 +343,22 @@ Proof.
 Qed.
 Lemma EB_inj o1 o2 : EB o1 = EB o2 -> o1 = o2.
 Proof.
-  destruct o1 as [[o s]|], o2 as [[o' s']|]; unfold EB; intros E; try discriminate; auto.
-  inversion E as [E1]. clear E. apply app_sep_inj in E1; [|nosep|nosep]. destruct E1 as [E1 E2].
-  apply fl_inj in E1. subst o'.
+  destruct o1 as [[[o t] s]|], o2 as [[[o' t'] s']|]; unfold EB; intros E; try discriminate; auto.
+  inversion E as [E1]. clear E.
+  apply app_sep_inj in E1; [|apply OS_nosep; auto|apply OS_nosep; auto]. destruct E1 as [E1 E2].
+  apply OS_inj in E1. destruct E1 as [-> ->].
   destruct s as [s|], s' as [s'|]; auto.
   - apply fl_inj in E2. subst. reflexivity.
   - exfalso. apply (fl_not_nil _ E2).
   - exfalso. symmetry in E2. apply (fl_not_nil _ E2).
 Qed.
 Lemma EB_nosep o : nosep 124%N (EB o).
-Proof. destruct o as [[o [s|]]|]; unfold EB; nosep. Qed.
+Proof.
+  destruct o as [[[o t] s]|]; unfold EB; [|nosep].
+  pose proof (OS_nosep o t 124%N (or_intror (or_intror eq_refl))) as H. destruct s; nosep.
+Qed.
 Lemma EB_not_nil o : EB o <> [].
-Proof. destruct o as [[o s]|]; discriminate. Qed.
+Proof. destruct o as [[[o t] s]|]; discriminate. Qed.
 
 Lemma node_str_inj g h u v : el_ok (el (attr_of g u)) -> el_ok (el (attr_of h v)) ->
   node_str g u = node_str h v -> ncov (attr_of g u) = ncov (attr_of h v).
